@@ -250,6 +250,9 @@ func (db *SingleBucketBackend) HeadObject(bucketName, objectName string) (*gofak
 	if bucketName != db.name {
 		return nil, gofakes3.BucketNotFound(bucketName)
 	}
+	if !cleanKeyPath(objectName) {
+		return nil, gofakes3.KeyNotFound(objectName)
+	}
 
 	db.lock.Lock()
 	defer db.lock.Unlock()
@@ -281,6 +284,9 @@ func (db *SingleBucketBackend) HeadObject(bucketName, objectName string) (*gofak
 func (db *SingleBucketBackend) GetObject(bucketName, objectName string, rangeRequest *gofakes3.ObjectRangeRequest) (obj *gofakes3.Object, err error) {
 	if bucketName != db.name {
 		return nil, gofakes3.BucketNotFound(bucketName)
+	}
+	if !cleanKeyPath(objectName) {
+		return nil, gofakes3.KeyNotFound(objectName)
 	}
 
 	db.lock.Lock()
@@ -344,6 +350,10 @@ func (db *SingleBucketBackend) PutObject(
 
 	if bucketName != db.name {
 		return result, gofakes3.BucketNotFound(bucketName)
+	}
+
+	if !cleanKeyPath(objectName) {
+		return result, errUnsupportedKey(objectName)
 	}
 
 	// Read and validate the whole body (declared size, and Content-MD5 through
@@ -464,6 +474,12 @@ func (db *SingleBucketBackend) DeleteObject(bucketName, objectName string) (resu
 }
 
 func (db *SingleBucketBackend) deleteObjectLocked(bucketName, objectName string) error {
+	// Such a key cannot have been stored, and the filesystem would resolve it to
+	// some other file or directory:
+	if !cleanKeyPath(objectName) {
+		return nil
+	}
+
 	// S3 does not report an error when attemping to delete a key that does not exist, so
 	// we need to skip IsNotExist errors.
 	if err := db.fs.Remove(filepath.FromSlash(objectName)); err != nil && !os.IsNotExist(err) {
